@@ -152,9 +152,8 @@ def run(ctx):
     g = ctx.fn("darling_core::codegen::trait_impl::TraitImpl::<'a>::require_fields")
     if g:
         ok = False
-        for c in ctx.closures_of(g):
-            for blk, t in ctx.find_calls(c, r"as_flatten_initializer$"):
-                ok = "filter_map" in ctx.expr(c, t["args"][1]) and "as_name" in ctx.expr(c, t["args"][1])
+        for _, t, c in ctx.find_calls_deep(g, r"as_flatten_initializer$", helpers=1):
+            ok = "filter_map" in ctx.expr(c, t["args"][1]) and "as_name" in ctx.expr(c, t["args"][1])
         ctx.ob("C17.S.parent-names-are-addressable-names", g.key, "as_flatten_initializer(fields.filter_map(as_name))", ok, "parent names offered to the flatten member must be the parent's addressable names")
     return ctx.finish(
         explanation="Guards of did_you_mean / add_alts / add_sibling_alts (both feature configurations), type fact on ErrorKind, candidate-set agreement for fields and variants, scoping of parent names.",
